@@ -11,15 +11,18 @@ Protocol lines of area `tsprops` (self-contained: programs + interleaving on one
 
     variant := fixed | shared            multi := 0 | 1 (labels carry the application id)
     item    := serve <req> | construct <app>
-    req     := R <app> <env> <route>
+    req     := R <app> <env> <debug 0|1> <custom codes n,n|-> B <op>* A <op>* <route>
+               (application config that matters while serving: config.debug, codes with an
+               @app.error handler, before_request / after_request hook statements)
     env     := - | <hexkey>:<val>&<hexkey>:<val>...          val := n | s<hex>
     route   := H <op>* <outcome> | NF <line> <text> | NA <line> <text> <allow> | BP <line>
     op      := path | method | query <k> | cookie <k> | header <name> <wsgikey> | envget <k> | body
              | form <k> | url | status <code> <line> | rdstatus | sethdr <k> <v> | addhdr <k> <v>
              | rdhdr <k> | setcookie <k> <rendered> | ctype <v> | copy | cpath <n> | cset <n> <k> <v>
+             | cheader <n> <name> <wsgikey>
              | nested <req> | construct <app>
     outcome := ret <text> | retb <text> | empty | raise <code> <line> <body> <env> | error <code> <line> <text>
-             | crash <line>
+             | crash <line> <repr of the exception> | failjson <errors_map key> | failform <errors_map key>
 
 `run` answers, per thread, the observations in order (`<app>:<hex of the observation>`): the values
 handlers read (`r:`) and the responses produced (`w:`).  `labels` answers the labels of the visible
@@ -47,12 +50,25 @@ def strDict (s : String) : Option (List (String × String)) :=
 
 mutual
   partial def parseReq : List String → Option (Req × List String)
-    | "R" :: a :: env :: rest => do
+    | "R" :: a :: env :: dbg :: custom :: "B" :: rest => do
       let a ← a.toNat?
       let env ← dict env
+      let (before, rest) ← parseHook rest
+      let (after, rest) ← parseHook rest
       let (rt, rest) ← parseRoute rest
-      pure (.mk a env rt, rest)
+      pure (.mk a env (bool01 dbg) ((natList custom).map Int.ofNat) before after rt, rest)
     | _ => none
+  /-- hook statements up to the next `A` (end of the before hooks) or route keyword -/
+  partial def parseHook : List String → Option (List HOp × List String)
+    | "A" :: rest => some ([], rest)
+    | "H" :: rest => some ([], "H" :: rest)
+    | "NF" :: rest => some ([], "NF" :: rest)
+    | "NA" :: rest => some ([], "NA" :: rest)
+    | "BP" :: rest => some ([], "BP" :: rest)
+    | toks => do
+      let (op, rest) ← parseOp toks
+      let (ops, rest) ← parseHook rest
+      pure (op :: ops, rest)
   partial def parseRoute : List String → Option (Route × List String)
     | "NF" :: l :: t :: rest => some (.notFound (str l) (str t), rest)
     | "NA" :: l :: t :: al :: rest => some (.notAllowed (str l) (str t) (str al), rest)
@@ -68,7 +84,9 @@ mutual
     | "raise" :: c :: l :: b :: h :: rest => do
       pure ([], .raise (← c.toInt?) (str l) (str b) (← strDict h), rest)
     | "error" :: c :: l :: t :: rest => do pure ([], .error (← c.toInt?) (str l) (str t), rest)
-    | "crash" :: l :: rest => some ([], .crash (str l), rest)
+    | "crash" :: l :: e :: rest => some ([], .crash (str l) (str e), rest)
+    | "failjson" :: e :: rest => some ([], .failJson (str e), rest)
+    | "failform" :: e :: rest => some ([], .failForm (str e), rest)
     | toks => do
       let (op, rest) ← parseOp toks
       let (ops, out, rest) ← parseOps rest
@@ -93,6 +111,7 @@ mutual
     | "copy" :: r => some (.copy, r)
     | "cpath" :: n :: r => do pure (.cpath (← n.toNat?), r)
     | "cset" :: n :: k :: v :: r => do pure (.cset (← n.toNat?) (str k) (str v), r)
+    | "cheader" :: n :: nm :: k :: r => do pure (.cheader (← n.toNat?) (str nm) (str k), r)
     | "nested" :: r => do
       let (q, r) ← parseReq r
       pure (.nested q, r)
